@@ -917,6 +917,10 @@ func (g *G) strExpr(d int) string {
 		g.use("fmt")
 		t := g.scalarType()
 		x := g.exprT(t, d-1)
+		// several operands: a space goes between two operands only when neither is a string
+		for k := g.r.Intn(3); k > 0 && g.r.Bool(); k-- {
+			x += ", " + g.exprT(g.scalarType(), 1)
+		}
 		return "fmt.Sprint(" + x + ")"
 	case n < 14:
 		g.use("fmt")
